@@ -153,6 +153,26 @@ class _Acc:
         self.d = {}
 
 
+def _atan2_call(rule, name, args, kwargs, node, ip):
+    """a call of atan2 (math / numpy, on scalars or element-wise on arrays) evaluated with a rule's simplification `rule(y, x)`"""
+    if name not in ("math.atan2", "np.arctan2", "np.atan2") or len(args) != 2 or kwargs:
+        return NotImplemented
+    y, x = args
+    if G.is_rat(y) and G.is_rat(x):
+        ip.sh.calls.append(("atan2", list(args), {}, node))
+        return rule(y, x)
+    if name != "math.atan2" and all(isinstance(v, (N.Arr, tuple, N.LVal)) or G.is_rat(v) for v in args):
+        try:
+            ya, xa = N.as_arr(y), N.as_arr(x)
+        except Unsupported:
+            return NotImplemented
+        if any(not G.is_rat(v) for v in ya.flat() + xa.flat()):
+            return NotImplemented
+        ip.sh.calls.append(("atan2", list(args), {}, node))
+        return N.lift2(rule, ya, xa)
+    return NotImplemented
+
+
 # ------------------------------------------------------------------------------------------------ R1: forward / inverse point maps
 def _enter_forward(ctx, fwd, ci, point):
     """_get_loc_a_basic is a private helper: the names of its parameters are nobody's interface, so it is entered by position (record, point) -
@@ -180,9 +200,9 @@ def r1_inverse_pair(ctx):
     atan2 = G.atan2_rule([x1, x2], [a[0], a[0] * F.sin(x1)])
 
     def hook(name, args, kwargs, node, ip):
-        if name in ("math.atan2", "np.arctan2", "np.atan2") and len(args) == 2 and G.is_rat(args[0]) and G.is_rat(args[1]):
-            ip.sh.calls.append(("atan2", list(args), {}, node))
-            return atan2(args[0], args[1])
+        r = _atan2_call(atan2, name, args, kwargs, node, ip)
+        if r is not NotImplemented:
+            return r
         if name in ("math.acos", "np.arccos") and len(args) == 1 and G.is_rat(args[0]) and G.same(args[0], F.cos(x1)):
             return x1                # acos(cos u) = u for the polar angle 0 <= u <= 180 deg
         return NotImplemented
@@ -337,6 +357,11 @@ def _divisor_guard(ctx, acc, run, tag, x1, x2, a, where):
                             "tests": [f"{ast.unparse(n)} is {d}" for _, n, d in tests]})
     if undecided:
         ctx.error(f"{tag}: divisor of the in-plane radius", where, undecided)
+        return
+    if bad and run.sh.discarded:
+        # np.where computes both candidates and keeps one: a quotient that was formed may be one that was thrown away
+        ctx.error(f"{tag}: a quotient by sin / cos of the azimuth is formed where its divisor vanishes, but the function selects values with "
+                  "np.where - whether that quotient is the one kept is not tracked", where, bad[:2])
         return
     acc.check(not bad, f"{tag}: a quotient by sin / cos of the azimuth is formed only where the selecting test keeps that divisor away from zero",
               where, None if not bad else {"violations": bad, "consequence": "the polar angle is computed from 0/0-like round-off at an ordinary point"},
@@ -708,10 +733,7 @@ def r2_local_frames(ctx):
         rule = G.atan2_rule(scene.angles, scene.positives)
 
         def hook(name, args, kwargs, node, ip):
-            if name in ("math.atan2", "np.arctan2", "np.atan2") and len(args) == 2 and G.is_rat(args[0]) and G.is_rat(args[1]):
-                ip.sh.calls.append(("atan2", list(args), {}, node))
-                return rule(args[0], args[1])
-            return NotImplemented
+            return _atan2_call(rule, name, args, kwargs, node, ip)
 
         point = dict(scene.generic)
         point.update(_assign(ref, (7, -2, 3)))
